@@ -300,6 +300,26 @@ def cases_c04(types, rng, tier):
                         pass
                     c.add(t["tid"], f"trav C[{a}][{b}] -", f"{res} cb={cb}",
                           f"Chain({ra} prefix of {k} keys, {rb} suffix) for node {p} of {t['label']}", f"chain:{ra}+{rb}")
+            # Chain falls through to its second part ONLY when the first is exhausted: a key of the first part that
+            # does not resolve is NotFound at its level even if the second part holds the keys that would
+            for k in range(len(p)):
+                cnt = info[k][2]
+                cbk = ",".join(f"{i}:{T.enc(n) if n is not None else '-'}:{c_}" for i, n, c_ in info[:k]) or "-"
+                sub = S.at(s, p[:k])
+                b = T.render(sub, p[k:], "indices")
+                for bad, what in ((f"i{cnt}", "index = sibling count"), ("s" + T.enc("zz\u00e9nope"), "unknown name"),
+                                  ("i-1", "negative index")):
+                    a = "L:" + ",".join([f"i{i}" for i in p[:k]] + [bad])
+                    c.add(t["tid"], f"trav C[{a}][{b}] -", f"notFound {k + 1} cb={cbk}",
+                          f"Chain whose first part fails ({what}) at level {k + 1} for node {p} of {t['label']}: "
+                          f"the second part must not be consulted", "chain:bad-first")
+            # ... and a chain is exhausted only when both parts are: surplus keys in the second part are TooLong
+            if typ == "leaf":
+                a = T.render(s, p, "names")
+                c.add(t["tid"], f"trav C[{a}][L:i0] -", f"tooLong {len(p)} cb={cb}",
+                      f"Chain(full key of leaf {p}, one surplus key) of {t['label']}", "chain:surplus")
+                c.add(t["tid"], f"trav C[L:][C[{a}][L:i0]] -", f"tooLong {len(p)} cb={cb}",
+                      f"Chain(empty, Chain(full key of leaf {p}, one surplus key)) of {t['label']}", "chain:surplus")
             # callback failing at the k-th call is reported at depth k+1 (Inner)
             for k in range(len(p)):
                 cbk = ",".join(f"{i}:{T.enc(n) if n is not None else '-'}:{cnt}" for i, n, cnt in info[:k]) or "-"
